@@ -292,6 +292,38 @@ def check_strings(rep, prog):
     apps = [e for e in I3.events if e.kind == "append" and e.data[0] == lst]
     rep.check(len(apps) == 1 and not muts and isinstance(lst, Ref), rule, "trace strings are kept in file order", TR + "TraceStringFile", "self.trace_strings.append",
               "trace strings are re-ordered / indexed differently after loading")
+    # line grammar of the string file:  <hash> || <message, may itself contain ||> || <location>   (one string per line)
+    news = [e for e in I3.events if e.kind == "new" and e.data[0] == TR + "TraceString"]
+    bad = None
+    nl = 0
+    if len(news) != 1 or not news[0].loops:
+        bad = "a line does not yield at most one trace string"
+    else:
+        N = news[0]
+        Lf = N.loops[-1]
+        line = Op("elem", Lf.iter, Lf.idx)
+        import re as _re
+        ref = _re.compile(r'\s*([0-9]+)\s*\|\|(.*)\|\|(.*)\n?')
+        samples = ["92602121||I> ADT7470: trace_level = %u||adt7470_fan_ctl.cpp(926)\n", "  7 || a || b || c.cpp(1) \n", "12||x||y", "12||only\n",
+                   "", "\n", "abc||x||y\n", "5||a||b||c||d||e.c(3)\n", " 001 ||  padded  ||  loc  \n", "9||||\n", "3|| %% done||f.c(2)\r\n",
+                   "4||one|two||g.c(7)\n", "18446744073709551616||big||h.c(1)\n", "6 ||tab\there||i.c(9)\n"]
+        for smp in samples:
+            env = {line: smp}
+            try:
+                made = bool(evaluate(N.guard, env))
+                got = tuple(evaluate(a, env) for a in N.data[2]) if made else None
+            except CannotEval as e:
+                raise AnalysisError("trace string line parser not evaluable: %s" % e)
+            except (ValueError, TypeError, IndexError, AttributeError) as e:
+                made, got = "raises %s" % type(e).__name__, None
+            m = ref.fullmatch(smp)
+            want = (int(m.group(1).strip()), m.group(2).strip(), m.group(3).strip()) if m else None
+            nl += 1
+            if got != want or (made is not True and made is not False):
+                bad = bad or "line %r gives %r, the documented grammar gives %r" % (smp, got if made in (True, False) else made, want)
+    rep.count("string-file sample lines evaluated", nl)
+    rep.check(bad is None, rule, "a string-file line '<hash>||<message>||<location>' yields (int hash, message, location) - the message may "
+              "contain '||'; other lines are ignored", TR + "TraceStringFile.__init__", "LINE_RE.fullmatch(line)", bad)
 
 
 def check_strings_indexed(rep, prog, rule):
